@@ -1,5 +1,6 @@
 import Refine.Lemmas.Cavity2Collapse
 import Refine.Lemmas.Cavity2Conf
+import Refine.Lemmas.Cavity2SwapChain
 import Refine.Props.C01
 
 /-!
@@ -526,6 +527,28 @@ theorem formEdgeSplit_ledger {φ : Int → Int → Int → G} (hφ : Alt φ) (hd
     EdgeFormed φ g n0 n1 c' ∧ LedgerEq φ g c' := by
   have hf := formEdgeSplit_formed hφ hd g n0 n1 newNode c' h hs hne hextra
   exact ⟨hf, hf.ledgerEq (edgeMatched_of_conforming hφ g n0 n1 hg.tetsOrder hg.trisOrder (hg.conf G))⟩
+
+/-- **swap_area_conserved** (the boundary edge swap, planar-patch case and beyond): for the cavity
+    `ref_cavity_form_edge_swap` leaves on a boundary edge whose two tris have three distinct valid nodes each, the four
+    segs `(n0,n3) (n3,n1) (n1,n2) (n2,n0)` are the signed boundary of the two listed tris (`ref_swap_node23`), hence
+    the two boundary tris `ref_cavity_replace` creates have exactly the vector area of the two it removes — each
+    component of `Σ ref_node_tri_normal`, exact arithmetic, any node positions. -/
+theorem swap_area_conserved (x : Int → Refine.Model.Geom.V3 ℝ) (g : Grid α) (n0 n1 node : Int) (hne01 : n0 ≠ n1)
+    (hgood : ∀ p ∈ g.tris.having2 Tri.nodes n0 n1, TriGood p.2)
+    (c' : Cav) (h : formEdgeSwap g Cav.create n0 n1 node = (.ok, c')) (hs : c'.state = .unknown)
+    (hne : g.tets.having2 Tet.nodes n0 n1 ≠ [])
+    (hextra : c'.tetList = (g.tets.having2 Tet.nodes n0 n1).map fun p => (p.1 : Int)) :
+    ((newTris c').map fun t => (Refine.Model.Geom.triNormal (x t.n0) (x t.n1) (x t.n2)).x).sum =
+      (c'.triList.map fun cell => match g.tris.get? cell with
+        | some t => (Refine.Model.Geom.triNormal (x t.n0) (x t.n1) (x t.n2)).x | none => 0).sum ∧
+    ((newTris c').map fun t => (Refine.Model.Geom.triNormal (x t.n0) (x t.n1) (x t.n2)).y).sum =
+      (c'.triList.map fun cell => match g.tris.get? cell with
+        | some t => (Refine.Model.Geom.triNormal (x t.n0) (x t.n1) (x t.n2)).y | none => 0).sum ∧
+    ((newTris c').map fun t => (Refine.Model.Geom.triNormal (x t.n0) (x t.n1) (x t.n2)).z).sum =
+      (c'.triList.map fun cell => match g.tris.get? cell with
+        | some t => (Refine.Model.Geom.triNormal (x t.n0) (x t.n1) (x t.n2)).z | none => 0).sum :=
+  replace_area_vector x g c'
+    (fun χ hχ => formEdgeSwap_segchain hχ g n0 n1 node hne01 hgood c' h hs hne hextra)
 
 section swappipe
 variable [Refine.Scalar α]
